@@ -67,6 +67,15 @@ def handle (op rest : String) : Option String :=
       let d ← matrix? m
       let t ← tours? ts
       pure s!"len={cInts (t.map (cyclicSum d))} perm={cNats (t.map (fun x => if isPermB x d.length then 1 else 0))} ub={sumFar d d.length} lb={sumNear d d.length} sym={isSymmetricB d d.length}"
+  -- what the frequency table has to count: the length of the current tour and of the candidate
+  -- (segment reversal, by the specification) for every non-skipped move
+  | "fspec", [m, st, ts, ms] => do
+      let d ← matrix? m
+      let s ← nats? st
+      let t ← tours? ts
+      let mv ← pairs (← nats? ms)
+      if t.length != mv.length then none else
+      pure s!"start={cyclicSum d s} cur={cInts (t.map (cyclicSum d))} cand={cInts ((t.zip mv).map (fun (x, ij) => cyclicSum d (revSpec x ij.1 ij.2)))}"
   | "revspec", [hd, xs] => do
       let x ← nats? xs
       match ← nats? hd with
